@@ -103,6 +103,12 @@ def jTable (args vals : Json) (dflt : GRat → GRat) : E (GRat → GRat) := do
     | some t => v.getD t 0
     | none => dflt x
 
+/-! `isEigShape`, `ascendingReal`, `descendingReal` below are executable RE-STATEMENTS, written in this driver, of the
+Prop-valued hypotheses `Svd.EigShape`, `Svd.EigsSorted` (order conjunct), `Svd.LapackSorted` (order conjunct) of the
+C16 theorems.  No theorem says `isEigShape W = true → Svd.EigShape W` (or the analogues): that the Boolean functions
+decide the hypotheses is by inspection of two short definitions, and the output fields `w_shape`, `eigs_ascending`,
+`lapack_descending` are diagnostics on what the real eigensolver / LAPACK handed over, not part of any theorem. -/
+
 /-- the shape of the eigenvector operator the real eigensolvers return (`Svd.EigShape`, decidable form):
 `Product(Orthonormal(Dense Q), Dense Y)` with a shared inner dimension, or `Dense(V)`.  By `C16_lanczos_W_good`
 the shape implies `Op.Good` (well-formed, no repeated slice index, `HermOK`), i.e. `W_good` of the Krylov theorems. -/
